@@ -3,6 +3,7 @@ package kit
 import (
 	"fmt"
 	"pgregory.net/rapid"
+	"reflect"
 )
 
 // GenOpts selects which registration forms a generated configuration may use.
@@ -37,7 +38,7 @@ type GenOpts struct {
 
 func FullOpts() GenOpts {
 	return GenOpts{MinRegs: 1, MaxRegs: 9, Multi: true, Out: true, OutGroupFields: true, Instance: true, Void: true, As: true, MultiAs: true,
-		Groups: true, Keys: true, MultiGroup: true, OptionalMissing: true, Builtins: true, Err: true, Iface: true, MaxDeps: 3, NilOuts: true, AltImpl: true, Drops: true, PreBuild: true, NamedVoid: true}
+		Groups: true, Keys: true, MultiGroup: true, OptionalMissing: true, Builtins: true, Err: true, Iface: true, MaxDeps: 3, NilOuts: true, AltImpl: true, Drops: true, PreBuild: true, NamedVoid: true, VoidAnyLife: true}
 }
 
 // NeverType is a concrete type id that generated configurations never provide.
@@ -343,7 +344,24 @@ func GenConfig(t *rapid.T, o GenOpts) *Config {
 				ok = false
 				break
 			}
+			if o.NilOuts && len(r.Outs) >= 2 && rapid.IntRange(0, 3).Draw(t, "nilfield") == 0 {
+				// a field the constructor always leaves nil - not the last one, so that whatever
+				// godi derives from field positions has something to get wrong; nothing may depend on it
+				var cand []int
+				for j, os := range r.Outs[:len(r.Outs)-1] {
+					if os.Group == "" && (IsIface(os.T) || ConcreteTypes[os.Impl].Kind() == reflect.Pointer) {
+						cand = append(cand, j)
+					}
+				}
+				if len(cand) > 0 {
+					r.Outs[rapid.SampledFrom(cand).Draw(t, "nilfieldIdx")].Nil = true
+				}
+			}
 			for _, os := range r.Outs {
+				if os.Nil {
+					g.used[Ident{T: os.T, Key: os.Key}] = true // registered, but nothing can depend on it
+					continue
+				}
 				g.take(Ident{T: os.T, Key: os.Key, Group: os.Group}, r.Life, i)
 			}
 		case FormVoid:
